@@ -1,8 +1,14 @@
 import RsjProofs.ParserRun1
 namespace Rsj.Parser
 
+/-- the expression of a call argument -/
+def Arg.expr : Arg → Expr
+  | .positional e => e
+  | .named _ e => e
+
 /-- The operator fragment: atoms, parentheses, unary and binary operators, field access,
-    indexing, `e in super`, `super.f`, `super[e]`. -/
+    indexing, calls (positional / named arguments, `tailstrict`), `e in super`, `super.f`,
+    `super[e]`. -/
 inductive Frag : Expr → Prop
   | null (sp) : Frag (.null sp)
   | bool (b sp) : Frag (.bool b sp)
@@ -20,6 +26,7 @@ inductive Frag : Expr → Prop
   | field {e} (name sp) : Frag e → Frag (.field e name sp)
   | index {e i} (sp) : Frag e → Frag i → Frag (.index e i sp)
   | inSuper {e} (ssp sp) : Frag e → Frag (.inSuper e ssp sp)
+  | call {f} (args ts sp) : Frag f → (∀ a ∈ args, Frag a.expr) → Frag (.call f args ts sp)
 
 /-- minimal-parentheses printing of a fragment tree in a position of level `lvl` -/
 abbrev P (e : Expr) (lvl : Nat) : Toks := pr false e lvl false false
@@ -47,6 +54,7 @@ theorem pr_indep {e : Expr} (h : Frag e) : ∀ (lvl : Nat) (o el : Bool), pr fal
   | field name sp he ih => intros; simp [pr, P]
   | index sp he hi ihe ihi => intros; simp [pr, P]
   | inSuper ssp sp he ih => intros; simp [pr, P]
+  | call args ts sp hf ha ihf iha => intros; simp [pr, P]
 
 
 /-! ## Running the machine: `Reach` -/
